@@ -181,4 +181,97 @@ Section C14.
   Qed.
   Lemma list_items_length (st : store) : length (list_items st) = fold_right (fun se n => length (snd se) + n) 0 st.
   Proof. unfold list_items. induction st as [|se st IH]; [reflexivity|]. cbn [flat_map fold_right]. rewrite app_length, map_length, IH. reflexivity. Qed.
+
+  (* ---- the command line: nothing is collated, so an item cannot be removed twice ---- *)
+  Lemma sect_eqb_refl s : sect_eqb s s = true. Proof. apply sect_eqb_eq. reflexivity. Qed.
+  Lemma key_eqb_refl k : key_eqb k k = true. Proof. apply key_eqb_eq. reflexivity. Qed.
+  Lemma has_option_cons s0 (es : list (key * V)) (st : store) s k :
+    has_option s k ((s0, es) :: st) = if sect_eqb s0 s then has_key k es else has_option s k st.
+  Proof. unfold has_option, section. cbn [find fst]. destruct (sect_eqb s0 s); reflexivity. Qed.
+  Lemma has_option_sect s k (st : store) : has_option s k st = true -> has_sect s st = true.
+  Proof.
+    induction st as [|[s0 es] st IH]; [discriminate|]. rewrite has_option_cons, has_sect_cons. destruct (sect_eqb s0 s); [reflexivity|]. exact IH.
+  Qed.
+  Lemma has_option_update s g s' k' (st : store) : (forall es, has_key k' (g es) = true -> has_key k' es = true) ->
+    has_option s' k' (update_sect s g st) = true -> has_option s' k' st = true.
+  Proof.
+    intro Hg. induction st as [|[s0 es] st IH]; [discriminate|]. cbn [update_sect fst snd]. destruct (sect_eqb s0 s).
+    - rewrite !has_option_cons. destruct (sect_eqb s0 s'); [apply Hg|exact (fun H => H)].
+    - rewrite !has_option_cons. destruct (sect_eqb s0 s'); [exact (fun H => H)|exact IH].
+  Qed.
+  Lemma has_option_drop s s' k' (st : store) : wf_store st = true -> has_option s' k' (drop_if_empty s st) = true -> has_option s' k' st = true.
+  Proof.
+    unfold drop_if_empty. induction st as [|[s0 es] st IH]; intros Hw H; [discriminate|].
+    apply wf_cons in Hw. destruct Hw as (H1 & H2 & H3). cbn [filter fst snd] in H. rewrite has_option_cons.
+    destruct (negb (sect_eqb s0 s && is_nil es)).
+    - rewrite has_option_cons in H. destruct (sect_eqb s0 s'); [exact H|exact (IH H3 H)].
+    - pose proof (IH H3 H) as H'. destruct (sect_eqb s0 s') eqn:E; [|exact H'].
+      apply sect_eqb_eq in E. subst s'. apply has_option_sect in H'. congruence.
+  Qed.
+  Lemma has_key_del_self k (es : list (key * V)) : has_key k (del_key k es) = false.
+  Proof.
+    unfold has_key, del_key. induction es as [|[k0 v0] es IH]; [reflexivity|]. cbn [filter fst]. destruct (key_eqb k0 k) eqn:E; cbn [negb]; [exact IH|].
+    cbn [existsb fst]. rewrite E, IH. reflexivity.
+  Qed.
+  Lemma has_option_update_self s k g (st : store) : (forall es, has_key k (g es) = false) -> has_option s k (update_sect s g st) = true -> False.
+  Proof.
+    intro Hg. induction st as [|[s0 es] st IH]; [discriminate|]. cbn [update_sect fst snd]. destruct (sect_eqb s0 s) eqn:E.
+    - rewrite has_option_cons, E, Hg. discriminate.
+    - rewrite has_option_cons, E. exact IH.
+  Qed.
+  Definition is_add (o : op) : bool := match o with Add _ _ _ => true | _ => false end.
+  (* overrides and removals never create an item *)
+  Lemma no_new_option (st st' : store) o s k : wf_store st = true -> is_add o = false -> apply_op st o = Ok st' ->
+    has_option s k st' = true -> has_option s k st = true.
+  Proof.
+    intros Hw Ha H. destruct o as [s0 k0 v|s0 k0|s0 k0 v]; [| |discriminate]; cbn [apply_op] in H.
+    - destruct (has_option s0 k0 st) eqn:E; [|discriminate]. injection H as <-.
+      destruct (sect_eqb s0 s) eqn:Es.
+      + apply sect_eqb_eq in Es. subst s0. intro H. destruct (key_eqb k0 k) eqn:Ek; [apply key_eqb_eq in Ek; subst; exact E|].
+        revert H. apply has_option_update. intros es. rewrite has_key_set_key, Ek, orb_false_r. exact (fun H => H).
+      + clear E. induction st as [|[s1 es] st IH]; [discriminate|]. cbn [update_sect fst snd].
+        apply wf_cons in Hw. destruct Hw as (_ & _ & Hw). destruct (sect_eqb s1 s0) eqn:E1.
+        * rewrite !has_option_cons. destruct (sect_eqb s1 s) eqn:E2; [|exact (fun H => H)].
+          apply sect_eqb_eq in E1. apply sect_eqb_eq in E2. subst. rewrite sect_eqb_refl in Es. discriminate.
+        * rewrite !has_option_cons. destruct (sect_eqb s1 s); [exact (fun H => H)|exact (IH Hw)].
+    - destruct (has_option s0 k0 st); [|discriminate]. injection H as <-. intro H.
+      apply has_option_drop in H; [|apply wf_update; [intros; apply nodup_del_key; assumption|exact Hw]].
+      revert H. apply has_option_update. intro es. apply has_key_del.
+  Qed.
+  Lemma removed_is_gone (st st' : store) s k : wf_store st = true -> apply_op st (Remove s k) = Ok st' -> has_option s k st' = false.
+  Proof.
+    intros Hw H. cbn [apply_op] in H. destruct (has_option s k st); [|discriminate]. injection H as <-.
+    destruct (has_option s k (drop_if_empty s (update_sect s (del_key k) st))) eqn:E; [|reflexivity]. exfalso.
+    apply has_option_drop in E; [|apply wf_update; [intros; apply nodup_del_key; assumption|exact Hw]].
+    revert E. apply has_option_update_self. apply has_key_del_self.
+  Qed.
+  Lemma apply_ops_app (a b : list op) : forall st : store,
+    apply_ops st (a ++ b) = match apply_ops st a with Ok st1 => apply_ops st1 b | CfgErr => CfgErr | Internal => Internal end.
+  Proof.
+    induction a as [|o a IH]; intro st; [reflexivity|]. cbn [app apply_ops]. destruct (apply_op st o); [apply IH|reflexivity|reflexivity].
+  Qed.
+  Lemma stays_missing (ops : list op) : forall (st st' : store) s k, wf_store st = true -> forallb (fun o => negb (is_add o)) ops = true ->
+    has_option s k st = false -> apply_ops st ops = Ok st' -> has_option s k st' = false /\ wf_store st' = true.
+  Proof.
+    induction ops as [|o ops IH]; intros st st' s k Hw Hn Hm H; cbn [apply_ops] in H.
+    - injection H as <-. split; assumption.
+    - cbn [forallb] in Hn. apply andb_true_iff in Hn. destruct Hn as [Ho Hn]. apply negb_true_iff in Ho.
+      destruct (apply_op st o) as [st1| |] eqn:E; try discriminate.
+      apply (IH st1 st' s k); [eapply apply_op_wf; eassumption|exact Hn| |exact H].
+      destruct (has_option s k st1) eqn:E1; [|reflexivity]. rewrite (no_new_option st st1 o s k Hw Ho E E1) in Hm. discriminate.
+  Qed.
+  Theorem cli_remove_twice (st : store) (ov rm1 rm2 rm3 ad : list op) s k : wf_store st = true ->
+    forallb (fun o => negb (is_add o)) rm2 = true ->
+    forall st', apply_ops st (cli_ops ov (rm1 ++ Remove s k :: rm2 ++ Remove s k :: rm3) ad) <> Ok st'.
+  Proof.
+    intros Hw Hn st' H. unfold cli_ops in H.
+    replace (ov ++ (rm1 ++ Remove s k :: rm2 ++ Remove s k :: rm3) ++ ad) with ((ov ++ rm1) ++ (Remove s k :: rm2) ++ Remove s k :: rm3 ++ ad) in H
+      by (rewrite <- !app_assoc; cbn [app]; rewrite <- !app_assoc; reflexivity).
+    rewrite apply_ops_app in H. destruct (apply_ops st (ov ++ rm1)) as [st1| |] eqn:E1; try discriminate.
+    pose proof (apply_ops_wf _ _ _ Hw E1) as Hw1.
+    rewrite apply_ops_app in H. destruct (apply_ops st1 (Remove s k :: rm2)) as [st2| |] eqn:E2; try discriminate.
+    cbn [apply_ops] in E2. destruct (apply_op st1 (Remove s k)) as [st1'| |] eqn:E3; try discriminate.
+    destruct (stays_missing rm2 st1' st2 s k (apply_op_wf _ _ _ Hw1 E3) Hn (removed_is_gone _ _ _ _ Hw1 E3) E2) as [Hm _].
+    cbn [apply_ops] in H. rewrite (remove_missing _ _ _ Hm) in H. discriminate.
+  Qed.
 End C14.
